@@ -22,6 +22,9 @@ CHECKS["C01"] = dict(cat="proof", tech=TECH,
 CHECKS["C13"] = dict(cat="proof", tech=TECH,
    text="Contracts on vertex/direction sampling (range + constant Jacobian), particle-type thresholds, box and cylinder exit points, weights, shadow rejection/counting and ListGenerator index arithmetic, for symbolic volumes, vertices, directions and generator state; discharged by z3 from the current source.",
    note=PROOF_NOTE + " Uniform/isotropic are stated through constant Jacobians (A3) over idealised RNG draws (A7); direction sign patterns and list lengths are bounded as listed in the evidence.", ref="§5 C13")
+CHECKS["C15"] = dict(cat="proof", tech=TECH,
+   text="Contracts on PREM.density (piecewise shells, scalar = array entries, zero outside) for both shipped tables and on slant_depth (zero iff the chord misses, exit point on the surface, trapezoid sum of density along the chord on a ceil(d/step) grid, dependence only on |q|^2 and q.u), plus normalize's contract and two ghost lemmas; discharged by z3 / Groebner-basis ideal membership from the current source.",
+   note=PROOF_NOTE + " Convergence of the trapezoid rule and monotonic growth with the dip are not decided (N).", ref="§5 C15")
 NOT_YET = {}
 def main():
     props = [json.loads(l) for l in open(os.path.join(HERE, "properties.jsonl"))]
